@@ -501,6 +501,8 @@ def _index_parts(interp, arr, slice_node):
             parts.append(("slice", lo, hi))
         else:
             v = interp.eval(nd)
+            if isinstance(v, Opaque) and v.tag == "ix" and len(nodes) == 1:
+                return [("ix", v.payload)]
             if isinstance(v, tuple) and v and v[0] == "slice":
                 parts.append(("slice", v[1], v[2]))
             elif isinstance(v, (list, tuple)):
@@ -577,6 +579,8 @@ def nd_getitem(interp, arr, slice_node):
 
     used("ndarray basic/fancy indexing")
     parts = _index_parts(interp, arr, slice_node)
+    if parts and parts[0][0] == "ix":
+        return _ix_get(interp, arr, parts[0][1])
     # boolean-mask indexing: 1-D only, handled by hook (symbolic length result)
     if any(p[0] in ("list", "arr") for p in parts):
         return _fancy_get(interp, arr, parts)
@@ -613,6 +617,50 @@ def nd_getitem(interp, arr, slice_node):
         # scalar element
         return arr.store.f(*[ax[1] for ax in out_axes])
     return NDArr(arr.store, out_axes, new_shape)
+
+
+def _np_ix(interp, *seqs):
+    """[A] np.ix_(s0, s1): open mesh; only its use as the complete index of a 2-D array is modelled (a[np.ix_(r, c)][i, j] =
+    a[r[i], c[j]], a fresh array)"""
+    used("np.ix_ (open mesh used as a gather index)")
+    return Opaque("ix", list(seqs))
+
+
+def _ix_get(interp, arr, seqs):
+    from .interp import Undecided
+
+    if arr.ndim != 2 or len(seqs) != 2:
+        raise Undecided("np.ix_ gather on a non 2-D array")
+    rd = arr.reader()
+    getters, lens = [], []
+    for s_, L in zip(seqs, arr.shape):
+        if isinstance(s_, NDArr) and s_.ndim == 1:
+            g, ln = s_.reader(), s_.shape[0]
+        elif isinstance(s_, (list, tuple)):
+            vals = list(s_)
+            g, ln = (lambda k, _v=vals: _select(_v, k)), len(vals)
+        elif isinstance(s_, _SymList):
+            g, ln = s_.elem, s_.length
+        else:
+            raise Undecided("np.ix_ of an unsupported sequence")
+        k = interp.path.fresh("ixk")
+        rng = z3.And(k >= 0, k < to_z3(ln))
+        ok = z3.And(to_z3(g(k)) >= 0, to_z3(g(k)) < to_z3(L))
+        interp.path.oblige(interp.ob_name("index"), ok, extra=[rng])
+        kq = z3.Int(f"ixq!{interp.path.counter.get('ixq', 0)}")
+        interp.path.counter["ixq"] = interp.path.counter.get("ixq", 0) + 1
+        interp.path.assume(z3.ForAll([kq], z3.Implies(z3.And(kq >= 0, kq < to_z3(ln)),
+                                                      z3.And(to_z3(g(kq)) >= 0, to_z3(g(kq)) < to_z3(L)))))
+        getters.append(g)
+        lens.append(ln)
+    return new_array((lens[0], lens[1]), lambda i, j: rd(to_z3(getters[0](i)), to_z3(getters[1](j))), "gather")
+
+
+def _select(vals, k):
+    t = as_int_term(vals[-1])
+    for m in range(len(vals) - 2, -1, -1):
+        t = z3.If(to_z3(k) == m, as_int_term(vals[m]), t)
+    return t
 
 
 def _add(a, b):
@@ -2032,6 +2080,6 @@ def _np_abs(interp, x):
 NUMPY = {
     "abs": _np_abs, "absolute": _np_abs, "zeros": _np_zeros, "ones": _np_ones, "eye": _np_eye, "identity": _np_eye, "multiply": _np_multiply,
     "copy": _np_copy, "array": _np_array, "asarray": _np_array, "shape": _np_shape, "vstack": _np_vstack,
-    "hstack": _np_hstack, "append": _np_append, "block": _np_block, "insert": _np_insert, "delete": _np_delete,
+    "ix_": _np_ix, "hstack": _np_hstack, "append": _np_append, "block": _np_block, "insert": _np_insert, "delete": _np_delete,
     "nonzero": _np_nonzero, "array_equal": _np_array_equal, "all": _np_all, "any": _np_any, "split": _np_split,
 }
